@@ -283,6 +283,8 @@ def run(rep, tier, rng):
                 for k in range(rng.randint(2, 5) if forced is None else 1 + len(forced)):
                     nm = "P%d" % k
                     form = rng.choice(["bare", "bare", "assign", "method"]) if names else rng.choice(["bare", "bare", "method"])
+                    if forced is None and k == 1 and run_i % 2 == 1:
+                        form = "method"
                     if forced is not None and k >= 1:
                         form = "assign"
                     if form == "bare":
@@ -290,7 +292,8 @@ def run(rep, tier, rng):
                         items.append((nm, "bare", stream[drawn])); drawn += 1
                     elif form == "method":
                         m = rng.choice(["normalized"])
-                        text_parts.append(f"{nm}.{m}()")
+                        ws_ = ["", " ", "\n    ", "\t"][(run_i + k) % 4]     # blanks between the name and the method
+                        text_parts.append(f"{nm}{ws_}.{m}()")
                         items.append((nm, "method", stream[drawn], m)); drawn += 1
                     else:
                         gg = Gen(rng, al)
@@ -332,8 +335,10 @@ def run(rep, tier, rng):
                                 add(f"check_parse {al} {c.nat(d)} {c.lst([c.zlist(v) for v in ents_f])} {to_coq(itx[2])} (1%Z, 1000000000%Z) {obs_t(o)}",
                                     {"op": "populate-item-assign-raised", "alg": al, "d": d, "text": text, "item": idx, "entries": ents_f,
                                      "obs": [o[0], str(o[1])[:120]]}, ("populate-raised", al, d, text, idx))
-                        elif o[0] != "ok" and itx[1] == "bare":
-                            rep.violation(f"populate({text!r}) raised {o[0]} at the bare name {nm!r}", {"case": {"alg": al, "text": text}})
+                        elif o[0] != "ok" and itx[1] in ("bare", "method"):
+                            rep.violation(f"populate({text!r}) raised {o[0]} at the {'bare name' if itx[1] == 'bare' else 'Name.method() item'} {nm!r}: {str(o[1])[:80]}",
+                                          {"case": {"alg": al, "text": text},
+                                           "python": f"import numpy as np, nengo_spa as spa\nv = spa.Vocabulary({d}, pointer_gen=np.random.RandomState(1), max_similarity=1e9)\nv.populate({text!r})\n"})
                         break
                     stored = pv[nm].v
                     if itx[1] == "bare":
